@@ -12,6 +12,7 @@ package main
 // case input :  <auth> <route> k=v ... | st=<rows> ## <concrete request>
 //     the part before " ## " is what the model runs on; the part after it is the concrete request
 //     (quoted, reversible) used for replay: `harness C16 <out> --only '<input>'`.
+//     "errcode <Code>" : one error value answered through bhserrors.ErrorResponse (ties the model's status table).
 // observable :  <status> [<doc>,<doc>..] eff=<none|tok|wh|hdr joined by +>
 //     doc = err:<code> (JSON object with string code and message) | str (bare JSON string) | val (any other
 //     JSON value) | garbage (bytes that are not JSON)
@@ -28,6 +29,7 @@ import (
 	"strings"
 	"time"
 
+	"github.com/bitcoin-sv/block-headers-service/bhserrors"
 	"github.com/bitcoin-sv/block-headers-service/config"
 	"github.com/bitcoin-sv/block-headers-service/domains"
 	"github.com/bitcoin-sv/block-headers-service/internal/chaincfg/chainhash"
@@ -423,7 +425,38 @@ var c16RouteNames = map[string]string{
 	"DELETE /api/v1/access/:token":                          "accdel",
 }
 
+// the error values the model's status_of table mirrors (bhserrors/definitions.go); a removed one breaks the build
+var c16ErrTable = []bhserrors.BHSError{
+	bhserrors.ErrBindBody, bhserrors.ErrMissingAuthHeader, bhserrors.ErrInvalidAuthHeader, bhserrors.ErrInvalidAccessToken,
+	bhserrors.ErrUnauthorized, bhserrors.ErrAdminTokenNotFound, bhserrors.ErrMerklerootNotFound, bhserrors.ErrMerklerootNotInLongestChain,
+	bhserrors.ErrInvalidBatchSize, bhserrors.ErrGetChainTipHeight, bhserrors.ErrVerifyMerklerootsBadBody, bhserrors.ErrTokenNotFound,
+	bhserrors.ErrAncestorHashHigher, bhserrors.ErrAncestorNotFound, bhserrors.ErrHeadersNotPartOfTheSameChain, bhserrors.ErrHeaderWithGivenHashes,
+	bhserrors.ErrHeaderNotFound, bhserrors.ErrHeadersForGivenRangeNotFound, bhserrors.ErrURLBodyRequired, bhserrors.ErrURLParamRequired,
+	bhserrors.ErrWebhookNotFound, bhserrors.ErrRefreshWebhook,
+}
+
+// c16ErrCase answers one error through bhserrors.ErrorResponse on a gin test context:
+// input "errcode <Code>" ("errcode error-unknown" = an error that is not an ExtendedError), observable as for requests.
+func c16ErrCase(c *Ctx, code string) {
+	var e error = fmt.Errorf("some internal error")
+	for _, x := range c16ErrTable {
+		if x.GetCode() == code {
+			e = x.Wrap(fmt.Errorf("cause"))
+		}
+	}
+	w := httptest.NewRecorder()
+	gc, _ := gin.CreateTestContext(w)
+	gc.Request = httptest.NewRequest("GET", "/", nil)
+	bhserrors.ErrorResponse(gc, e, nil)
+	c.Case("errcode "+code, fmt.Sprintf("%d [%s] eff=none", w.Code, strings.Join(c16BodyDocs(w.Body.String()), ",")))
+	c.Count("route:errcode")
+}
+
 func runC16(c *Ctx) error {
+	if strings.HasPrefix(c.Only, "errcode ") {
+		c16ErrCase(c, strings.TrimPrefix(c.Only, "errcode "))
+		return nil
+	}
 	f, err := c16NewFix(c)
 	if err != nil {
 		return err
@@ -472,6 +505,11 @@ func runC16(c *Ctx) error {
 			return err
 		}
 		return emit(r, "replay")
+	}
+	// the error table of the model against bhserrors (also the codes no request of this run reaches)
+	c16ErrCase(c, "error-unknown")
+	for _, x := range c16ErrTable {
+		c16ErrCase(c, x.GetCode())
 	}
 	// corpus first
 	for _, line := range c16Corpus() {
